@@ -39,11 +39,11 @@ def chunkings(chars, rng, limit):
 def sched_str(s):
     return ",".join(s) if s else "-"
 
-def schedules_for(nbytes, rng, tier):
+def schedules_for(nbytes, rng, tier, pid="C02"):
     """exhaustive short schedules + failure at every offset of the rendering + random ones"""
     toks = ['a1', 'a2', 'a7', 'i', 'f7', 'a0', 'w8']
     out = [[]]
-    L = 3 if tier == "quick" else 4
+    L = 3 if tier == "quick" or pid != "C02" else 4      # C06 has six wrappers: length 4 there costs 30 GB and 40 minutes
     for l in range(1, L + 1):
         out += [list(t) for t in itertools.product(toks, repeat=l)]
     for off in range(0, min(nbytes, 40) + 1):
@@ -80,10 +80,10 @@ def gen_cases(pid, tier, rng):
         nb = len(html.escape(text).encode())
         chs = chunkings(chars, rng, 6 if len(chars) > 3 else 8)
         if len(chars) <= 3:
-            scheds = schedules_for(nb, rng, tier)
+            scheds = schedules_for(nb, rng, tier, pid)
             if len(chars) == 3: scheds = rng.sample(scheds, min(len(scheds), 60 if tier == "quick" else 400))
         else:
-            scheds = [[]] + rng.sample(schedules_for(nb, rng, tier), 12 if tier == "quick" else 40)
+            scheds = [[]] + rng.sample(schedules_for(nb, rng, tier, pid), 12 if tier == "quick" else (40 if pid == "C02" else 24))
             scheds += [['a1'] * off + ['f9'] for off in rng.sample(range(nb + 1), min(nb + 1, 6))]
         for w in wrappers:
             for ps in (chs if w in ('D', 'H') else chs[:2]):
@@ -212,7 +212,7 @@ def run(pid, tier):
     chk.cov["rule"] = ("strings over {<,>,&,\",',a,e-acute,euro,U+1D11E} exhaustive to length %d (C06 thorough: 4, plus 4000 of length 5) plus random to 4 KiB; all chunkings of short strings into write_str pieces; "
                        "schedules exhaustive over {a1,a2,a7,i,f7,a0} to length %d, a failure and a zero-accept at every offset, random long ones; wrappers %s. "
                        "non-trivial = text has a special byte and (several pieces or a non-empty schedule); distinct by case line") % (
-                        3 if tier == "quick" else (5 if pid == "C02" else 4), 3 if tier == "quick" else 4, "D" if pid == "C02" else "H,B,HB,BB,D")
+                        3 if tier == "quick" else (5 if pid == "C02" else 4), 3 if tier == "quick" or pid != "C02" else 4, "D" if pid == "C02" else "H,B,HB,BB,D")
     chk.notes["result_histogram"] = hist
     chk.assumptions += ["Display impls are well-behaved (stop at the first fmt error)", "sinks follow io::Write's contract and do not override write_all"]
     if pid == "C02":
